@@ -340,6 +340,9 @@ func AddX(a, b Val) X {
 	if b.Form == Zero {
 		return X{Val: a}
 	}
+	if x, ok := addFar(a, b); ok {
+		return x
+	}
 	ca, ea := a.Coeff()
 	cb, eb := b.Coeff()
 	if a.Neg {
@@ -357,6 +360,49 @@ func AddX(a, b Val) X {
 	}
 	ca.Add(ca, cb)
 	return X{Val: FromInt(ca, e)}
+}
+
+// addFar computes a+b exactly by digit-string surgery when one addend lies entirely (and far) below the
+// other one's last digit, without materialising a power of ten of the size of the gap.
+func addFar(a, b Val) (X, bool) {
+	if CmpMag(a, b) < 0 {
+		a, b = b, a
+	}
+	// positions: a occupies decimal positions [a.Exp-len(a.Digits), a.Exp), b occupies [b.Exp-len(b.Digits), b.Exp)
+	aLow := a.Exp - int64(len(a.Digits))
+	gap := aLow - b.Exp // number of zero digits between a's last digit and b's first digit
+	if gap < 1000 {
+		return X{}, false
+	}
+	if gap > 1<<24 {
+		panic(fmt.Sprintf("model: refusing an exponent gap of %d digits", gap))
+	}
+	lb := len(b.Digits)
+	if a.Neg == b.Neg {
+		d := a.Digits + strings.Repeat("0", int(gap)) + b.Digits
+		return X{Val: Val{Form: Finite, Neg: a.Neg, Digits: d, Exp: a.Exp}}, true
+	}
+	// |a| - |b| = (A-1) · 10^k + (10^k - B) with k = gap + len(B)
+	A, _ := new(big.Int).SetString(a.Digits, 10)
+	A.Sub(A, big.NewInt(1))
+	B, _ := new(big.Int).SetString(b.Digits, 10)
+	comp := new(big.Int).Sub(pow10(int64(lb)), B) // 10^len(B) - B, has at most len(B) digits, not zero
+	cs := comp.String()
+	cs = strings.Repeat("0", lb-len(cs)) + cs
+	as := A.String()
+	exp := a.Exp
+	var d string
+	if A.Sign() == 0 {
+		// a was a power of ten with the single digit 1: the result starts with the nines
+		d = strings.Repeat("9", int(gap)) + cs
+		exp = aLow
+	} else {
+		if len(as) < len(a.Digits) {
+			exp -= int64(len(a.Digits) - len(as)) // A-1 lost a digit (A was 10^j)
+		}
+		d = as + strings.Repeat("9", int(gap)) + cs
+	}
+	return X{Val: MkFinite(a.Neg, d, exp)}, true
 }
 
 // SumZeroSign is the IEEE 754-2008 §6.3 sign of an exactly zero sum whose
